@@ -4,7 +4,7 @@ from ..core import Stream, hx, unhx
 from .. import mml
 
 RULE = ("unroll: loop-heavy programs (nesting <= 5, counts 1..5, with/without ':', loops inside Sub, tuplets, chords-free bodies, macro bodies, mixed with "
-        "state-changing commands) and the generator-side textual unrolling of the same AST are both compiled by the real pipeline: the bytes must be "
+        "state-changing commands; loops with omitted count whose body starts with a macro / variable / function call) and the generator-side textual unrolling of the same AST are both compiled by the real pipeline: the bytes must be "
         "identical (the property's own statement); sem: the same programs against Spec.Core.sem (decoded notes); omitted count = 2. "
         "non-trivial = distinct outputs of programs whose execution takes >= 1 backward jump (a loop with count >= 2)")
 ASSUMPTIONS = ["loop counts are literal (variable counts are exercised by C11's stream)", "a macro call inside a tuplet is outside the checked domain (known limitation D#37b, see DESIGN)"]
@@ -64,6 +64,18 @@ def streams(tier, rng, P, only=None, cases=None):
             elif wrap < 0.25:
                 src, un = "STR M={%s} M" % src, "STR M={%s} M" % un
             cs.append(dict(req="compile2 %s %s" % (hx(src), hx(un)), src=src, un=un, show=src, jump=has_jump(prog), sexp=mml.sexp(prog) if wrap >= 0.25 else None, key="u%d" % i, prog=prog if wrap >= 0.25 else None))
+        # loops with the count omitted whose body starts with a macro / string-variable / function call
+        for j in range(40 if big else 12):
+            kind = rng.choice(["var", "hash", "str", "func"]); body = rng.choice(["c e", "o5c", "d8 r8", "v100 g"]); tail = rng.choice(["d", "d e", "r"])
+            brk = rng.choice(["", "", " : e"])
+            if kind == "var": d, call = "XA={%s} " % body, "XA"
+            elif kind == "hash": d, call = "#M={%s} " % body, "#M"
+            elif kind == "str": d, call = "STR SV={%s}; " % body, "SV"
+            else: d, call = "FUNCTION FA(){ %s } " % body, "FA()"
+            sp = rng.choice(["", " ", "\t"])
+            a = "%sl8 [%s%s %s%s] g" % (d, sp, call, tail, brk)
+            b = "%sl8 %s %s%s %s %s g" % (d, call, tail, brk.replace(" :", ""), call, tail)
+            cs.append(dict(req="compile2 %s %s" % (hx(a), hx(b)), src=a, un=b, show=a, jump=True, sexp=None, key="mac%d" % j))
         for j, (a, b) in enumerate([("[1 c : [2 d] e] f", "c f"), ("[c d]", "c d c d"), ("[3 c : d]", "c d c d c"), ("{[2 c d]}4", "{c d c d}4"), ("Sub{[2 c : >]} e", "Sub{c > c} e")]):
             cs.append(dict(req="compile2 %s %s" % (hx(a), hx(b)), src=a, un=b, show=a, jump=True, sexp=None, key="fixed%d" % j))
         return cs
